@@ -23,7 +23,7 @@ CONSTANTS Base,        \* the base world: [IDs -> Feature] (Absent for IDs not i
           Queries,     \* search battery: [name -> query]
           WithMutate,  \* BOOLEAN: explore MutateCallerCopy
           WithRoundTrip,
-          Merges       \* set of sequences of sub-changes [op, id, f, k, v] applied as one ingest.MergedChange
+          Merges       \* set of sequences of sub-changes [op, g, id, f, k, v] applied as one ingest.MergedChange (g = part number)
 
 VARIABLES eff, snaps, ev
 vars == <<eff, snaps, ev>>
